@@ -62,6 +62,18 @@ def run(ctx, env):
     lay = Layouts(prog, an)
     ctx.rule("R8.1", "exporter byte layout = [version] ++ parser header layout ++ Star(parser record layout): same source field, same width, same order; header atoms outside, record atoms inside one loop over self.flowsets; nothing else emitted")
     ctx.rule("R8.2", "each (decode primitive, encode primitive) pair is in the inverse-pair table")
+    ctx.rule("R8.3", "what parse_bytes reports is what the parser read: the V5/V7 wrappers do not modify the decoded packet, and the records are read by nom count(record, header.count) — exactly header.count records or an error — so the emitted count always equals the number of emitted records")
+    from . import c02 as _c02
+    for ver, S in sorted(STRUCTS.items()):
+        wp = VERSION_PARSERS[ver]
+        muts = _c02.packet_mutations(prog, wp, S["top"])
+        ctx.ob("R8.3", wp, "decoded-packet-not-modified", not muts,
+               "the decoded packet is modified after decoding at %s" % [site(st["span"]) for _, st in muts] if muts else "no assignment into the decoded packet in the wrapper or its closures")
+        Lt = lay.parser_layout(parse_be_path(S["top"]))
+        rs = [s2 for s2 in Lt["steps"] if "flowsets" in s2["fields"]] if Lt["ok"] else []
+        okc = bool(rs) and rs[0]["term"][0] == "count" and find(peel(an.simp(rs[0]["term"][2])), lambda n: n[0] == "field" and n[2] == "count")
+        ctx.ob("R8.3", parse_be_path(S["top"]), "records-by-header-count", bool(okc),
+               "records parsed by %s" % (term_s(rs[0]["term"])[:140] if rs else "?"))
     total = 0
     for ver, S in sorted(STRUCTS.items()):
         path = S["top"] + "::to_be_bytes"
